@@ -29,7 +29,7 @@ FINDINGS = {
     "C06-hidden-uint32-slice": "Uint32SlicePush onto a typed or void record attaches a hidden slice: Get shows the old value, Size counts the slice",
     "C06-set-slice-merges": "Set with a uint32 slice pushes into the stored slice instead of replacing it",
     "C06-u32del-self-deadlock": "Uint32SliceDelete calls DeleteTreasure while holding the record guard: removing the last value never returns",
-    "C06-u32del-deletes-non-slice": "Uint32SliceDelete on a record that is not a slice deletes the record (write interval 0) instead of reporting a type error",
+    "C06-u32del-deletes-non-slice": "Uint32SliceDelete on a record that is not a slice deletes the record instead of reporting a type error",
     "C06-failed-increment-leaves-trace": "an Increment whose condition fails has already applied its metadata / parked an in-flight treasure that later requests inherit",
     "C06-empty-swamp-materialised": "Uint32SliceSize/IsValueExist/Delete and failed increments summon a missing swamp: IsSwampExist turns true for an empty swamp",
     "C06-arekeysexist-missing-swamp-error": "AreKeysExist on a missing swamp answers FailedPrecondition (documented: every key false)",
